@@ -112,7 +112,11 @@ def t_parens(toks, rng):
             out.append('(' + t + ')')
         else:
             out.append(t)
-    return out
+    txt = ''.join(out)
+    # an assignment used as an expression may be parenthesised too (for-increment, initializer value)
+    import re as _re
+    txt = _re.sub(r'; (\w+) = (\w+) \+ 1\) \{', lambda m: '; (%s = %s + 1)) {' % (m.group(1), m.group(2)) if rng.random() < 0.5 else m.group(0), txt)
+    return tokenize(txt)
 
 
 def t_dead(src, rng):
